@@ -118,18 +118,21 @@ pub fn analyse(t: &PrepTables) -> Result<(), (String, String)> {
 }
 
 fn check<C: Pv>(c: &Case) -> Report {
-    let built: Built<C> = e1::interpret::<C>(&c.prog, e1::Excl {
+    let (built, linked): (Built<C>, bool) = e1::interpret_linked::<C>(&c.prog, e1::Excl {
         select_ext: true,
         two_creators: true,
         sat_only: true,
     });
     let Built {
         builder,
-        features,
+        mut features,
         excluded,
         connects,
         ..
     } = built;
+    if linked {
+        features.insert("decompose-links:recompose/coeff".into());
+    }
     let circuit = match builder.build() {
         Ok(x) => x,
         Err(e) => return Report::fail("C09/build-error", format!("{e:?}")),
@@ -137,6 +140,10 @@ fn check<C: Pv>(c: &Case) -> Report {
     let horner_ok = e1::horner_shape_ok(&circuit);
     if e1::exclude_known() && !horner_ok {
         return Report::pass().class("excluded_by_known_finding:horner-positional-contract");
+    }
+    let coeff_ok = e1::coeff_slots_ok(&circuit);
+    if e1::exclude_known() && !coeff_ok {
+        return Report::pass().class("excluded_by_known_finding:coeff-slot-second-creator");
     }
     let pk = packing(&C10Case {
         prog: Prog {
@@ -180,6 +187,8 @@ fn check<C: Pv>(c: &Case) -> Report {
         Err((sig, msg)) => {
             let sig = if !horner_ok {
                 "C09/horner-positional-contract".to_string()
+            } else if !coeff_ok {
+                "C09/coeff-slot-second-creator".to_string()
             } else if features.contains("two-creators") {
                 "C09/two-creators".to_string()
             } else if features.contains("npo-duplicate-output") {
